@@ -1,0 +1,5 @@
+//go:build verif && !amd64 && !js
+
+package websocket
+
+func verifGID() int64 { return verifGIDSlow() }
